@@ -32,6 +32,7 @@ type vfReplayData struct {
 	Inputs  []vfInputVal `json:"inputs"`
 	Apps    []vfAppVal   `json:"apps"`
 	Choices []int        `json:"choices"`
+	Retry   bool         `json:"retry"`
 }
 
 type vfStop struct{ why string }
@@ -123,7 +124,7 @@ func vfAssert(label string, c bool) {
 		vfState.mu.Lock()
 		vfState.failed = append(vfState.failed, label)
 		vfState.mu.Unlock()
-		panic(vfStop{"assert " + label})
+		// like the symbolic run, later obligations are still evaluated
 	}
 }
 
